@@ -91,7 +91,7 @@ def atom_vocab_key(atom):
 def norm_outcome(p, effects=None, outcome_norm=None):
     o = p.outcome
     if o[0] == "return":
-        base = ("return", A.fmt(o[1]))
+        base = ("return", A.fmt(_known_none(p, o[1])))
     elif o[0] == "raise":
         cls = o[1]
         base = ("raise", cls)
@@ -165,6 +165,33 @@ def _non_escaping_containers(p):
     return fresh - escaping
 
 
+def _known_none(p, t):
+    """A term the path has established to be None is printed as None (storing
+    `v` after `v is None` held stores None)."""
+    nones = [a[1] for a, v in p.valuation.items()
+             if a[0] == "isnone" and v is True]
+    if not nones:
+        return t
+
+    def sub(x):
+        if not isinstance(x, tuple):
+            return x
+        for n in nones:
+            if x is n or (len(x) == len(n) and x[0] == n[0] and _eq(x, n)):
+                return A.const(None)
+        if x and x[0] in ("closure", "lambda", "const"):
+            return x
+        return tuple(sub(y) for y in x)
+    return sub(t)
+
+
+def _eq(a, b):
+    try:
+        return a == b
+    except Exception:
+        return False
+
+
 def _raw_effects(p):
     out = []
     hidden = _non_escaping_containers(p)
@@ -173,12 +200,13 @@ def _raw_effects(p):
                 and e[1][1][1] in hidden:
             continue
         if e[0] == "call":
-            out.append("call " + A.fmt(e[1]))
+            out.append("call " + A.fmt(_known_none(p, e[1])))
         elif e[0] == "store":
-            out.append("store %s = %s" % (A.fmt(e[1]), A.fmt(e[2])))
+            out.append("store %s = %s" % (A.fmt(e[1]),
+                                          A.fmt(_known_none(p, e[2]))))
         elif e[0] == "item-store":
             out.append("store %s[%s] = %s" % (A.fmt(e[1]), A.fmt(e[2]),
-                                              A.fmt(e[3])))
+                                              A.fmt(_known_none(p, e[3]))))
         elif e[0] == "slice-store":
             out.append("store %s[:] = %s" % (A.fmt(e[1]), A.fmt(e[2])))
         elif e[0] == "close":
